@@ -12,7 +12,7 @@ class Number(Token):
         self.is_neg = False
 
     def set_value(self, value: str):
-        if value.isdigit():
+        if value.removeprefix("-").isdigit():
             self.value = int(value)
         elif value.endswith("."):
             self.value = int(value.removesuffix("."))
